@@ -4,7 +4,7 @@
 set -u
 D="$1"
 W=/tmp/seedchk_bin
-export CARGO_NET_OFFLINE=true CARGO_TARGET_DIR=/tmp/seedchk_bin_target
+export CARGO_NET_OFFLINE=true   # demos look for the binaries under <worktree>/target, so no CARGO_TARGET_DIR here
 git -C /repo worktree remove --force $W 2>/dev/null
 git -C /repo worktree add -q --detach $W HEAD || exit 2
 cd $W
@@ -12,8 +12,8 @@ if ! git apply "$D/patch.diff"; then echo "RESULT patch-does-not-apply"; git -C 
 echo "== suite with the change"
 cargo test --workspace --no-fail-fast --offline 2>&1 | grep -E "^test result|error(\[|:)" | head -8
 echo "== demo with the change (expect exit 1)"
-sh "$D/demo.sh" $W > /tmp/seedchk_bin_demo1.log 2>&1; echo "exit $?"; tail -3 /tmp/seedchk_bin_demo1.log
+bash "$D/demo.sh" $W > /tmp/seedchk_bin_demo1.log 2>&1; echo "exit $?"; tail -3 /tmp/seedchk_bin_demo1.log
 git apply -R "$D/patch.diff"
 echo "== demo without the change (expect exit 0)"
-sh "$D/demo.sh" $W > /tmp/seedchk_bin_demo0.log 2>&1; echo "exit $?"; tail -3 /tmp/seedchk_bin_demo0.log
-cd /; git -C /repo worktree remove --force $W; rm -rf /tmp/seedchk_bin_target /tmp/seedchk_bin_demo?.log
+bash "$D/demo.sh" $W > /tmp/seedchk_bin_demo0.log 2>&1; echo "exit $?"; tail -3 /tmp/seedchk_bin_demo0.log
+cd /; git -C /repo worktree remove --force $W; rm -rf /tmp/seedchk_bin_demo?.log
